@@ -1,6 +1,6 @@
 /-
   C04 — refinement of the specification by the executor model.
-  `exec_refines_spec_partial`: for documents WITHOUT named fragment spreads (fields, aliases, directives,
+  `exec_refines_spec_spreadfree_exact`: for documents WITHOUT named fragment spreads (fields, aliases, directives,
   inline fragments, abstract types, lists, errors — everything else) the model's response is EQUAL to the
   specification's (same ordered data, same error list). The full statement is kept as `ExecRefinesSpec`;
   exact equality of the grouped field sets is FALSE with spreads (the `_seen_fragments` rebinding duplicates
@@ -238,13 +238,13 @@ private theorem executeGroups_agree (s : SchemaD) (w : World) (e eS : String →
               | boom => rfl
               | val v => simp only [hcv]
 
-/-- **exec_refines_spec_partial** — proved for selection sets WITHOUT named fragment spreads (inline fragments,
+/-- **exec_refines_spec_spreadfree_exact** — EXACT equality (error locations included), for selection sets WITHOUT named fragment spreads (inline fragments,
     aliases, directives, abstract types, lists, resolver errors, non-null violations all included), for every
     schema, world, variables and fuel: the model's result (ordered data AND error list, or failure) is equal to
     the result of the specification's algorithm. Excluded: named fragment spreads, where the `_seen_fragments`
     rebinding makes the grouped node lists differ by duplicates (see the witness below); that case is covered by
     the correspondence (model vs Lean spec vs real executor on every generated request). -/
-theorem exec_refines_spec_partial (s : SchemaD) (doc : Doc) (vars : Vars) (w : World) (cf : Nat) :
+theorem exec_refines_spec_spreadfree_exact (s : SchemaD) (doc : Doc) (vars : Vars) (w : World) (cf : Nat) :
     ∀ (fuel : Nat) (parent : String) (path : Path) (sels : List Sel), selsSpreadFree sels = true →
       executeFields s doc vars w cf fuel parent path sels = executeSelectionSetS s doc vars w cf fuel parent path sels := by
   intro fuel
@@ -328,7 +328,9 @@ theorem exec_refines_spec_of_collect (s : SchemaD) (doc : Doc) (vars : Vars) (w 
         simp [h1, h2, Except.map] at h
         simp only [h, executeGroups_agree' s w _ _ (fun rt p sels => ih rt p sels) parent path p2.1]
 
-/-- Full statement (all documents): data equal, errors equal up to duplicate locations inside one error. -/
+/-- Earlier formulation of the full statement with `eraseDups`; the statement actually PROVED for all documents with ranked
+    fragments is `ExecRefinesSpecUpToLocations` (`exec_refines_spec`, `Props/C04_spreads.lean`), where "up to duplicate
+    locations" is the relation `Rep`. -/
 def ExecRefinesSpec (s : SchemaD) (doc : Doc) (vars : Vars) (w : World) (cf fuel : Nat) (root : String) (sels : List Sel) : Prop :=
   ∀ d es, executeFields s doc vars w cf fuel root [] sels = .ok (d, es) →
     ∃ es', executeSelectionSetS s doc vars w cf fuel root [] sels = .ok (d, es') ∧
@@ -379,7 +381,7 @@ theorem quirk_witness_same_response :
     ∧ dataKeys (executeRequestS qSchema qDoc [] constWorld none 5 5) = (["a"], 0) := by
   constructor <;> decide
 
-/-- non-vacuity of `exec_refines_spec_partial`: a spread-free selection set with alias, directive and inline fragment -/
+/-- non-vacuity of `exec_refines_spec_spreadfree_exact`: a spread-free selection set with alias, directive and inline fragment -/
 example : selsSpreadFree [.field "x" "a" 2 [⟨"skip", .lit false⟩] [] false [], .inline (some "Query") [] [qNodeA]] = true := by decide
 
 end PyGql.Props.C04
